@@ -85,6 +85,18 @@ P = {
          'Lean 4 theorems over EmdModel/Ensemble.lean (abstract RNG stream, fork-semantics worker pool), for every schedule: member i receives the i-th parent draw, members are pairwise distinct under injective draws, the result is the per-IMF mean over members (absent columns count as zero), a flip member is the mean of the +noise and -noise decompositions, zero noise gives exactly the classic capped sift, the complete-ensemble member i uses column i of the parent matrix at every stage; a negation witness shows that the pinned in-worker draw shares noise between workers. Correspondence on the grid nensembles 1..8 x nprocesses 1..8 x {single, flip} x noise {0, small, large}: noise traced from outside per pid (wrappers on numpy.random and the public sift inherited by forked workers), sharing pattern vs the model under the observed schedule, output vs the model mean recomputed with the public sift.',
          "PARTIAL: the real OS scheduler is sampled, not enumerated; the theorems cover every schedule of the fork-pool model. RNG distinctness is an assumption validated per run; sift is an oracle (tabulated per member); complete-ensemble stage count is taken from the output (stop logic is C03's). Defects D7 (forked workers shared RNG state) and D7b (flip mode with ragged +/- runs) repaired in /repo.",
          "Lean 4 proof over hand-written model + differential correspondence with the implementation", '5 C08'),
+ 'C01': (True,
+         'Lean 4 theorems over the executable model of the classic sift loop (EmdModel/Sift.lean), for every extractor meeting the contract (length preserved; continue flag cleared => input returned unchanged), every threshold, cap, input and fuel: the running residual is always input minus the sum of the columns so far; on the natural exit (flag cleared) the columns sum to the input exactly in Q, and so on any exit that is not cut short; the cut-short causes (cap reached / energy flag / last column abs-sum below threshold) are exhaustive and accurate; get_next_imf satisfies the extractor contract; on the natural exit the last component has fewer than two strict interior maxima or minima. Correspondence: op SIFT replays the outer loop on a table of real get_next_imf outputs over 9 signal families incl. an engineered few-extrema family (extrema vanishing after k mean removals) x stop rules x steps x interpolants x pad widths; the instance check evaluates sum and last-column extrema on the real sift.',
+         "Trusted: Lean kernel + standard axioms; model + harness; get_next_imf outputs tabulated from the real code (oracle for the outer loop; its own model is C04); float rounding of the sum bounded by the instance check (1e-9*max(1,|x|)); the outer loop takes fuel (EMD has no termination proof) and every theorem holds for every fuel; 'envelope is None iff fewer than 2 extrema' validated by stream env_none. Defect D2 repaired in /repo.",
+         "Lean 4 proof over hand-written model + differential correspondence with the implementation", '5 C01'),
+ 'C03': (True,
+         "Lean 4 theorems (EmdModel/Sift.lean: peelLoop shared by sift and mask sift, ensembleCols, ceemdLoop, secondLayer): component k = extraction of x minus the first k components; capped run = prefix of the uncapped run for every cap >= 1 and caps are nested (classic and masked sift, cap lowered to the number of mask frequencies); column count <= cap for classic, masked, ensemble (widest member) and complete-ensemble (1 <= K <= cap) sifts; second-layer output has shape n x first-layer x cap with zero padding and each block is that IMF's sift. Correspondence ops SIFT / MASKSIFT-PEEL / ENS-SHAPE / CEEMD-SHAPE / L2-SHAPE; instance: exact prefix equality across caps 1..K+2, manual peeling with the public get_next_imf / get_next_imf_mask, shapes, caps, np.isfinite.",
+         'PARTIAL: finiteness of outputs is decided by the instance check only (Q has no inf/NaN); input shape normalisation is not modelled here (C19); randomised variants are seeded and compared for shapes/caps only. Trusted: Lean kernel + standard axioms; model + harness. Defects D3a/b/c (ensemble IndexError, complete-ensemble cap+2 columns, second-layer shape/loop defects) repaired in /repo.',
+         "Lean 4 proof over hand-written model + differential correspondence with the implementation", '5 C03'),
+ 'C04': (True,
+         'Lean 4 theorems over the executable model of get_next_imf (EmdModel/Sift.lean), for every envelope oracle, energy oracle, option record and signal: the outcome is exactly characterised (run_spec + spec_unique) as the least iterate at which the stop rule fires with its FULL envelope mean removed, or the least iterate with an undefined envelope (flag cleared iff that is the unmodified input), or the convergence error only after max_iters+1 non-firing iterates; iterates obey h_{k+1} = h_k - step*mean; the fixed rule stops in iteration n exactly and never errors; the energy flag only ever clears. Correspondence: op GNI with reference iterate/envelope tables from the real interp_envelope, op STOP for direct stop-function calls, 9 signal families incl. rejection-sampled extrema-vanishing cases, max_iters 1..50, thresholds over their ranges, steps in (0,1]; the instance check recomputes the documented iterate sequence independently.',
+         "Trusted: Lean kernel + standard axioms; model + harness; envelope values and log10 are oracles; decisions within 1e-7 of their threshold are skipped and counted; non-fixed rules may perform max_iters+1 mean removals before the error (observed, harmless, modelled as is); 'fixed' with max_iters=0 is excluded by hypothesis (the code does not terminate there; outside the documented range). Defect D20 (zero-energy log10) repaired in /repo.",
+         "Lean 4 proof over hand-written model + differential correspondence with the implementation", '5 C04'),
 }
 ALL = ['C%02d' % i for i in range(1, 21)]
 
